@@ -430,8 +430,7 @@ impl<'a, 'b> Add<&'b Substance> for &'a Substance {
                             k.clone(),
                             Property {
                                 output: (&(&self.amount * &prop1.output).unwrap()
-                                    + &(&other.amount * &prop2.output).unwrap())
-                                    .expect("Add"),
+                                    + &(&other.amount * &prop2.output).unwrap())?,
                                 input_name: prop1.input_name.clone(),
                                 input: mol,
                                 output_name: prop1.output_name.clone(),
